@@ -124,6 +124,17 @@ def run_thorough(prop, pc, units, seed):
             out["vacuity"][u] = {"twins": len(vac), "failed_as_expected": len([v for v in vac if v in failed]), "status": r["status"]}
             out["vacuous"] += [f"{u}::{v}" for v in bad]
     known0 = hqcheck.load_known()
+
+    def _base_rc(u):
+        try:
+            return json.load(open(os.path.join(VERIF, "baseline", u + ".json"))).get("residual_closures", {})
+        except Exception:
+            return {}
+
+    def _real_failures(u, r):
+        """failures of a unit run that count: not a listed finding, not inside a function with new un-normalised closures"""
+        brc = _base_rc(u)
+        return [f for f in r["failures"] if not match_known(known0, prop, u, f, any_prop=True) and not (f.get("rc", 0) > brc.get(f["fn"], 0))]
     # mutants
     muts = []
     mfile = os.path.join(VERIF, "mutants.json")
@@ -154,7 +165,7 @@ def run_thorough(prop, pc, units, seed):
             for u in m.get("units") or units:
                 r = _unit_json(u, repo=root)
                 # obligations that are listed findings fail with or without the mutation: they kill nothing
-                fl = [f for f in r["failures"] if not match_known(known0, prop, u, f, any_prop=True)]
+                fl = _real_failures(u, r)
                 if fl:
                     killed_by += [f"{u}::{f['fn']}: {f['msg']}: {f['clause'][:100]}" for f in fl][:3]
                     break
@@ -195,7 +206,7 @@ def run_thorough(prop, pc, units, seed):
             alarms, und = [], []
             for u in [x for x in h["units"] if x in units]:
                 r = _unit_json(u, repo=root)
-                fl = [f for f in r["failures"] if not match_known(known0, prop, u, f, any_prop=True)]
+                fl = _real_failures(u, r)
                 alarms += [f"{u}::{f['fn']}: {f['msg']}: {f['clause'][:100]}" for f in fl][:3]
                 if r["status"] != "ok":
                     und.append(f"{u}: {r['reason'][:120]}")
@@ -315,6 +326,13 @@ def main(argv):
             k2 = match_known(known, prop, u, f, any_prop=True)
             if k2:
                 known_elsewhere.append(k2.get("id"))
+                continue
+            # a closure that survived the normalisation is opaque to the verifier when it is handed to a std combinator: a failing
+            # obligation in such a function is an unsupported construct (exit 2), unless the same function had closures when it was baselined
+            rc = (f.get("fn_info") or {}).get("residual_closures", 0)
+            if rc > base.get("residual_closures", {}).get(f["fn"], 0):
+                undecided.append(f"{u}: failing obligation in a function that now contains {rc} closure(s) the normaliser does not expand "
+                                 f"(unsupported construct, not a verdict): {oid}")
                 continue
             if f["fn"] not in base["functions"] and f["fn"] not in base.get("known_failing_functions", []):
                 undecided.append(f"{u}: failing obligation in a function that is not in the baseline: {oid}")
